@@ -215,6 +215,43 @@ def reset_stream(ck):
                        {'step': k, 'impl': got[k], 'ref': want[k], 'signals': [s_.path for s_ in d.sigs],
                         'oracle': 'after sim_reset() (reset asserted with the requested polarity for three cycles, then released) every pass group must be in the state of the dataflow reference'})
   ck.extra_cov['reset_designs'] = made
+  closed_stream(ck, max(6, n // 3))
+
+def closed_stream(ck, n):
+  """free-running designs: the top has no input port besides clk / reset.  The test bench pokes `reset` by hand in the middle of
+  the run and drives with sim_tick() alone (also as the very first call, without sim_reset): every pass group must still give
+  F(state, reset) of the dataflow reference at every edge."""
+  rng = ck.rng
+  made = 0
+  for _ in range(n * 4):
+    if made >= n: break
+    d = rtlgen.generate(rng, max_blocks=6, max_regs=4, min_regs=1, with_children=(rng.random() < 0.5), closed=True)
+    if not any(b['kind'] == 'ff' for b in d.blocks): continue
+    src = d.source()
+    try: cls = rtlgen.load_class(ck.workdir, d)
+    except Exception: continue
+    made += 1
+    cycles = rtlgen.gen_inputs(rng, d, rng.randint(6, 10))          # only (reset, 0/1)
+    if rng.random() < 0.5: cycles[0] = [(g, 0) for (g, _v) in cycles[0]]
+    ref = rtlgen.RefSim(d)
+    want = [list(ref.cycle(c)[1]) for c in cycles]
+    for flow in ['default', 'simple', 'heutopo', 'mamba', 'unroll']:
+      ck.count({'closed': hash(src) & 0xffffffff, 'flow': flow}, True); ck.hist('closed_flow', flow)
+      try:
+        rs = rtlgen.RealSim(cls, d, flow)
+        got = []
+        for c in cycles:
+          rs.set_inputs(c); rs.top.sim_tick(); got.append(list(rs.read_all()))
+      except Exception as e:
+        if len(ck.rejected) < 50: ck.rejected.append({'source': src, 'error': f'closed stream: {type(e).__name__}: {e}'})
+        break
+      if got != want:
+        k = next(i for i, (x, y) in enumerate(zip(got, want)) if x != y)
+        ck.violation('closed-design-tick-differs', {'flow': flow},
+                     {'source': src, 'flow': flow, 'tick_only_inputs': cycles, 'signals': [s_.path for s_ in d.sigs]},
+                     {'step': k, 'impl': got[k], 'ref': want[k], 'signals': [s_.path for s_ in d.sigs],
+                      'oracle': 'a design without input ports, driven with sim_tick() alone while the test bench pokes reset: the state after every tick is F(pre-edge state, reset) of the dataflow reference, under every pass group'})
+  ck.extra_cov['closed_designs'] = made
 
 def run(ck):
   ck.rejected = []
